@@ -22,16 +22,16 @@ type c14Probe struct {
 }
 
 type c14Doc struct {
-	Valid   bool          `json:"valid"`
-	Class   string        `json:"class"` // invalid class or "valid"
-	Policy  *model.Policy `json:"policy,omitempty"`
-	Raw     string        `json:"raw,omitempty"` // literal document (invalid JSON etc.)
+	Valid  bool          `json:"valid"`
+	Class  string        `json:"class"` // invalid class or "valid"
+	Policy *model.Policy `json:"policy,omitempty"`
+	Raw    string        `json:"raw,omitempty"` // literal document (invalid JSON etc.)
 }
 
 type c14Prog struct {
-	Docs   []c14Doc   `json:"docs"`
-	Probes []c14Probe `json:"probes"`
-	Restart bool      `json:"restart,omitempty"`
+	Docs    []c14Doc   `json:"docs"`
+	Probes  []c14Probe `json:"probes"`
+	Restart bool       `json:"restart,omitempty"`
 }
 
 type c14 struct{ baseCheck }
@@ -49,9 +49,12 @@ func (c14) Runs(tier string) int {
 	}
 	return 1500
 }
-func (c14) RequiredProbes(string) []string { return []string{"probe_allowed", "probe_denied", "invalid_document_refused"} }
+func (c14) RequiredProbes(string) []string {
+	return []string{"probe_allowed", "probe_denied", "invalid_document_refused"}
+}
 
 var c14ObjActs = []string{"s3:GetObject", "s3:PutObject", "s3:DeleteObject", "s3:GetObjectTagging", "s3:PutObjectTagging", "s3:DeleteObjectTagging", "s3:GetObjectAttributes", "s3:AbortMultipartUpload"}
+
 // (GetBucketVersioning is additionally restricted to the owner by the gateway and therefore not a clean probe)
 var c14BktActs = []string{"s3:ListBucket", "s3:GetBucketTagging", "s3:PutBucketTagging", "s3:GetBucketPolicy", "s3:ListBucketVersions", "s3:ListBucketMultipartUploads", "s3:GetBucketAcl"}
 
